@@ -356,6 +356,14 @@ impl<'a> Lexer<'a> {
         );
     }
 
+    // a newline inside a quoted literal moves the text coordinates to the next line
+    fn wrap_coordinates_on_newline(&mut self, c: char) {
+        if c == '\n' {
+            self.text_column = 0;
+            self.text_row += 1;
+        }
+    }
+
     fn can_create_valid_token(&self) -> Result<(), CompilerError> {
         match self.current_token_type {
             Some(t) => match t {
@@ -548,6 +556,7 @@ impl<'a> Lexer<'a> {
                 // because it adds all chars, mostly indiscriminately
                 if !end && c != '\0' {
                     self.current_characters.push(c);
+                    self.wrap_coordinates_on_newline(c);
                 }
 
                 end
@@ -568,6 +577,7 @@ impl<'a> Lexer<'a> {
                     // reset end quote count every non-quote character
                     self.end_quote_count = 0;
                     self.current_characters.push(c);
+                    self.wrap_coordinates_on_newline(c);
                     false
                 }
             }
@@ -592,6 +602,7 @@ impl<'a> Lexer<'a> {
                 // because it adds all chars, mostly indiscriminately
                 if !end && c != '\0' {
                     self.current_characters.push(c);
+                    self.wrap_coordinates_on_newline(c);
                 }
 
                 end
@@ -611,6 +622,7 @@ impl<'a> Lexer<'a> {
                 } else {
                     self.end_quote_count = 0;
                     self.current_characters.push(c);
+                    self.wrap_coordinates_on_newline(c);
                     false
                 }
             }
